@@ -62,6 +62,10 @@ WRAPS = [
     "zz_q = zz_d['k'][\n    '0.0.0.0'][\n    '/tmp/zz_k']\n{c}",
     "zz_s = '-'.join(zz_x).format(\n    '/var/tmp/zz_f').strip(\n    '0.0.0.0')\n{c}",
     "zz_t = zz_a.b(\n    '/tmp/zz_1')(\n    '/tmp/zz_2')(\n    {c})",
+    # a flagged literal on a later line than the target it is stored under / compared with / passed for
+    "zz_d['password'] = (\n    'hunter2')\nzz_d['token'] = \\\n    'hunter3'\n{c}",
+    "zz_o.secret = (\n    'hunter2'\n)\nif zz_pw == (\n        'hunter4'):\n    {c}",
+    "zz_f(zz_a,\n     password=(\n         'hunter2'),\n     zz_k={c})",
 ]
 
 
